@@ -8,15 +8,15 @@ import (
 
 // Expr is the AST of the contract / spec expression language.
 type Expr struct {
-	Kind string // ident int str bool nil unary binary cond call index slice field old quant let deref
-	Op   string
-	Name string
-	Val  string
+	Kind    string // ident int str bool nil unary binary cond call index slice field old quant let deref
+	Op      string
+	Name    string
+	Val     string
 	X, Y, Z *Expr
-	Args []*Expr
-	Vars []QVar // quant
-	Pos  int
-	Pats [][]*Expr
+	Args    []*Expr
+	Vars    []QVar // quant
+	Pos     int
+	Pats    [][]*Expr
 }
 
 type QVar struct{ Name, Type string }
@@ -137,7 +137,7 @@ func (p *parser) fail(f string, a ...interface{}) {
 	panic(parseErr(fmt.Sprintf("parse error at %d: ", p.peek().pos) + fmt.Sprintf(f, a...)))
 }
 func (p *parser) peek() tok { return p.toks[p.p] }
-func (p *parser) next() tok  { t := p.toks[p.p]; p.p++; return t }
+func (p *parser) next() tok { t := p.toks[p.p]; p.p++; return t }
 func (p *parser) isOp(s string) bool {
 	t := p.peek()
 	return t.kind == "op" && t.s == s
